@@ -82,10 +82,13 @@ Print Assumptions compiler_flags_named_identically.
    C string) is routed to the bytes representation by the one guarded arm; buffers take pointer and length from the same
    vector; the scan callbacks run over matching_rules(), the iterators over the
    rule's own metadata / patterns / tags / matches; the ten global setters pass
-   a value of the type in their name to set_global / define_global unchanged *)
+   a value of the type in their name to set_global / define_global unchanged; the
+   simple setters pass their argument on unchanged and yrx_scanner_set_timeout
+   converts it with the Duration constructor of the unit the header documents
+   (seconds -> Duration::from_secs) *)
 Theorem value_plumbing_ok :
   out_params_ok = true /\ structs_ok = true /\ buffers_ok = true /\ loops_ok = true /\
-  c_strings_ok = true /\ meta_ok = true /\ setters_ok = true.
+  c_strings_ok = true /\ meta_ok = true /\ setters_ok = true /\ inner_calls_ok = true.
 Proof. exact values_parts. Qed.
 Print Assumptions value_plumbing_ok.
 
